@@ -513,6 +513,7 @@ func (h *handler) processStreamingRpc(
 	ctx, cancel, err := contextFromHeaders(clientCtx, rpc.GetHeader())
 	if err != nil {
 		log.Info().Msgf("invalid headers: calling RST stream %d", rpc.Id)
+		cancel() // no stream will use this context
 		sendReset = true
 		return nil
 	}
